@@ -58,8 +58,8 @@ def modes_in(q, mb):
                 continue
             scope = "".join(pl.tname(sg.tensors[t]) + ";" for t in op.outputs if t != -1)
             out.add(orc.mode_of(q, key, scope)[0])
-        a, _ = q._recipe_manager.get_quantization_configs("INPUT", "".join(pl.tname(sg.tensors[t]) + ";" for t in sg.inputs))
-        b, _ = q._recipe_manager.get_quantization_configs("OUTPUT", "")
+        a, _ = orc.resolve(q, "INPUT", "".join(pl.tname(sg.tensors[t]) + ";" for t in sg.inputs))
+        b, _ = orc.resolve(q, "OUTPUT", "")
         for x in (a, b):
             if str(getattr(x, "value", x)) != "no_quantize":
                 out.add("io")
@@ -224,7 +224,7 @@ def compare_float_modes(ctx, interp, case, res, fail):
     a = outputs_of(interp, res["out"], data, ctx)
     b = outputs_of(interp, ref, data, ctx)
     if a[0] != "ok":
-        return fail(f"quantized model does not run: {a[0]} {str(a[1])[:120]}", "quantized-does-not-run:" + pl.interp_err_class(a))
+        return fail(f"quantized model does not run: {a[0]} {str(a[1])[:120]}", "quantized-does-not-run:" + pl.interp_err_class(a, res["out"]))
     if b[0] != "ok":
         return
     ctx.tag("c06_" + "+".join(sorted(modes)))
@@ -270,7 +270,7 @@ def compare_static(ctx, interp, case, res, fail, max_ops=4):
     a = outputs_of(interp, res["out"], data, ctx)
     b = outputs_of(interp, case.mb, data, ctx)
     if a[0] != "ok":
-        return fail(f"quantized model does not run: {a[0]} {str(a[1])[:120]}", "quantized-does-not-run:" + pl.interp_err_class(a))
+        return fail(f"quantized model does not run: {a[0]} {str(a[1])[:120]}", "quantized-does-not-run:" + pl.interp_err_class(a, res["out"]))
     if b[0] != "ok":
         return
     ctx.tag("c07_checked")
